@@ -284,15 +284,14 @@ POW_LIMIT = {"mainnet": POW_LIMIT_MAINNET, "testnet": POW_LIMIT_MAINNET,
 
 def check_pow(hash_le_int, bits, pow_limit):
     """pow.cpp CheckProofOfWork: hash_le_int = UintToArith256(header hash) (the 32 SHA256d bytes
-    read little-endian), bits = header nBits as uint32"""
-    if compact_negative(bits) or compact_overflow(bits):
-        return False
+    read little-endian), bits = header nBits as uint32.
+        bnTarget.SetCompact(nBits, &fNegative, &fOverflow);
+        if (fNegative || bnTarget == 0 || fOverflow || bnTarget > powLimit) return false;
+        if (UintToArith256(hash) > bnTarget) return false;
+        return true;"""
     target = compact_to_target(bits)
-    if target == 0 or target > pow_limit:
-        return False
-    if hash_le_int > target:
-        return False
-    return True
+    return (not compact_negative(bits) and not compact_overflow(bits) and target != 0
+            and target <= pow_limit and hash_le_int <= target)
 
 
 def header_pow_ok(header80, pow_limit):
@@ -329,18 +328,21 @@ def header_hash(header80):
     return dsha256(header80)[::-1]
 
 
+def prev_hash_field(header80):
+    """hashPrevBlock of a serialised header, in display order"""
+    return header80[4:36][::-1]
+
+
 def chain_linked(headers80):
-    """every header after the first names the hash of its predecessor (bytes 4..36, internal order)"""
+    """every header after the first names the hash of its predecessor"""
     ok = True
     for i in range(1, len(headers80)):
-        if headers80[i][4:36] != dsha256(headers80[i - 1]):
-            ok = False
+        ok = ok and prev_hash_field(headers80[i]) == header_hash(headers80[i - 1])
     return ok
 
 
 def chain_valid(headers80, pow_limit):
     ok = chain_linked(headers80)
     for h in headers80:
-        if not header_pow_ok(h, pow_limit):
-            ok = False
+        ok = ok and header_pow_ok(h, pow_limit)
     return ok
